@@ -259,6 +259,22 @@ def _classes(case):
 
 kind_pairs = pairs().flatmap(lambda c: st.sampled_from(["deca", "hpa", "gona", "dms", "ddm"]).map(lambda k: dict(c, kind=k)))
 
+def _sweep_lines(rnd):
+    """The second point walked along a meridian (lat2 = -90..90) and around a parallel (lon2 = -180..180), and the first point
+    along its meridian, everything else fixed per line by the seed (pairs beyond 178 deg of separation are discarded by the check)."""
+    out = []
+    for rep in range(2):
+        ell = "grs80" if rep == 0 else S.sweep_ellipsoid(rnd, 280.0, 320.0)
+        lat1, lon1 = rnd.uniform(-85.0, 85.0), rnd.uniform(-180.0, 180.0)
+        lat2, lon2 = rnd.uniform(-85.0, 85.0), rnd.uniform(-180.0, 180.0)
+        base = {"ell": ell, "pair": "sweep", "defaults": False, "num": "float"}
+        out.append((1.0, lambda f, b=base, a=lat1, o=lon1, o2=lon2: dict(b, lat1=a, lon1=o, lat2=-90.0 + 180.0 * f, lon2=o2)))
+        out.append((1.0, lambda f, b=base, a=lat1, o=lon1, a2=lat2: dict(b, lat1=a, lon1=o, lat2=a2, lon2=-180.0 + 360.0 * f)))
+        if rep:
+            out.append((1.0, lambda f, b=base, o=lon1, a2=lat2, o2=lon2: dict(b, lat1=-90.0 + 180.0 * f, lon1=o, lat2=a2, lon2=o2)))
+    return out
+
+
 SUBCHECKS = [
     SubCheck("arrival_and_reverse_azimuth", check_arrival, strategy=pairs(), nontrivial=_nt, classes=_classes,
              quick=3000, thorough=300000, shards_quick=4, shards_thorough=16,
@@ -272,4 +288,8 @@ SUBCHECKS = [
     SubCheck("longitude_shift", check_shift, strategy=shifted_pairs(), nontrivial=_nt, classes=_classes,
              quick=3000, thorough=300000, shards_quick=3, shards_thorough=12,
              rule="adding a common offset (uniform in [-360, 360], and exactly +-360 / +-180) to both longitudes changes nothing beyond 1 mm"),
+    SubCheck("axis_sweeps", check_arrival, enumerate=S.sweeps(505, _sweep_lines, 8000, 160000), nontrivial=_nt, classes=_classes,
+             shards_quick=12, shards_thorough=16,
+             rule="stratified sweeps: the second point along a meridian and around a parallel, the first along its meridian (8 000 / 160 000 "
+                  "lattice points per line, 5 lines, seeded), judged like arrival_and_reverse_azimuth"),
 ]
